@@ -59,6 +59,11 @@ structure Client where
   q : Question
   scope : Nat
   route : Route
+  /-- number of entries in the question section of the query (`q` is the first one; it is meaningless when
+  `nq = 0`).  A query carries exactly one question: anything else is refused with FORMERR before the limiter,
+  routing, the cache and the singleflight are reached (fix 59279ab for `nq > 1`; `nq = 0` is finding
+  `c09-questionless-query-cached-under-root-key`, modelled here as repaired). -/
+  nq : Nat
   deriving DecidableEq, Repr
 
 def Client.key (c : Client) : Key := ⟨c.q.name, c.q.qtype, c.q.qclass, c.scope⟩
@@ -82,6 +87,26 @@ inductive Att where
   | fail
   | msg (m : UpMsg)
   deriving DecidableEq, Repr, Inhabited
+
+/-- what response routing (`ResponseSelect`) says about an upstream message -/
+inductive RespRoute where
+  | accept
+  /-- `reject`: the answer section is emptied, the message is still cached and written -/
+  | reject
+  /-- another upstream: `dialSend` calls itself with `invokingDepth + 1` and that upstream -/
+  | next (sch : Scheme)
+  deriving DecidableEq, Repr
+
+/-- one level of `dialSend`: the transport outcome(s) of `forwardWithFallback` (the second one is consulted
+only on the `tcp+udp` fallback) and what response routing decides about the message, if it gets that far -/
+structure Round where
+  a1 : Att
+  a2 : Att
+  route : RespRoute
+  deriving DecidableEq, Repr
+
+/-- `MaxDnsLookupDepth` -/
+def maxDepth : Nat := 3
 
 inductive Src where
   /-- built from the client's own message (reject, refused, error replies) -/
@@ -110,6 +135,8 @@ inductive ErrKind where
   | mismatch
   /-- `ResponseSelect`: "DNS response expected but DNS request received" (QR bit clear) -/
   | notResponse
+  /-- `dialSend`: "too deep DNS lookup invoking" (response routing re-asked `MaxDnsLookupDepth` times) -/
+  | tooDeep
   deriving DecidableEq, Repr
 
 /-- what `HandleWithResponseWriter_` did for one client -/
@@ -209,30 +236,66 @@ def answersRequest (q : Question) (m : UpMsg) : Bool :=
   | none => false
   | some mq => q.same mq
 
-/-- `dialSend` for the singleflight leader (`needResp`, capturing writer): upstream exchange,
-question check, `respMsg.Id = id`, synchronous cache insert.  Returns the shared result and the
-new cache. -/
-def dialSend (cfg : Cfg) (c : Client) (sch : Scheme) (a1 a2 : Att) (cache : List (Key × Entry)) :
-    DRes × List (Key × Entry) :=
-  match forwardWithFallback sch a1 a2 with
-  | .err e => (.err e, cache)
-  | .ok m =>
-    if cfg.checkQuestion && !answersRequest c.q m then (.err .mismatch, cache)
-    else if !m.resp then (.err .notResponse, cache)
-    else
-      let m' := { m with id := c.id }
-      -- NormalizeAndCacheDnsResp_: only healthy responses with a question are cached, under the
-      -- REQUEST's key, with the RESPONSE's question
-      let cache' :=
-        match m.q with
-        | some mq =>
-          -- only class-IN answers are kept (`NormalizeAndCacheDnsResp_`, fix 4150de7)
-          if m.resp && m.rcode == 0 && !m.ttl0 && mq.qclass == classIN then insert cache c.key (Entry.mk mq.canon m.ans) else cache
-        | none => cache
-      (.ok m', cache')
+/-- the tail of `dialSend` once response routing has accepted (or emptied) the message: `respMsg.Id = id`,
+synchronous cache insert.  `NormalizeAndCacheDnsResp_`: only healthy responses with a question are cached,
+under the REQUEST's key, with the RESPONSE's question; only class-IN answers are kept (fix 4150de7). -/
+def acceptResp (c : Client) (m : UpMsg) (cache : List (Key × Entry)) : DRes × List (Key × Entry) :=
+  let m' := { m with id := c.id }
+  let cache' :=
+    match m.q with
+    | some mq =>
+      if m.resp && m.rcode == 0 && !m.ttl0 && mq.qclass == classIN then insert cache c.key (Entry.mk mq.canon m.ans) else cache
+    | none => cache
+  (.ok m', cache')
+
+/-- `dialSend` for the singleflight leader (`needResp`, capturing writer) at `invokingDepth = depth` towards an
+upstream of scheme `sch`: depth limit, upstream exchange (`forwardWithFallback`), question check,
+`ResponseSelect` (QR test, then accept / reject = empty the answer section / re-ask another upstream = recursive
+call with `depth + 1`), `respMsg.Id = id`, synchronous cache insert.  `rounds` scripts one `Round` per level; a
+script that ends early is a failing exchange.  Returns the shared result and the new cache. -/
+def dialSend (cfg : Cfg) (c : Client) : Nat → Scheme → List Round → List (Key × Entry) → DRes × List (Key × Entry)
+  | depth, _, [], cache => (.err (if depth ≥ maxDepth then .tooDeep else .upstream), cache)
+  | depth, sch, r :: rest, cache =>
+    if depth ≥ maxDepth then (.err .tooDeep, cache) else
+    match forwardWithFallback sch r.a1 r.a2 with
+    | .err e => (.err e, cache)
+    | .ok m =>
+      if cfg.checkQuestion && !answersRequest c.q m then (.err .mismatch, cache)
+      else if !m.resp then (.err .notResponse, cache)
+      else
+        match r.route with
+        | .next sch' => dialSend cfg c (depth + 1) sch' rest cache
+        | .accept => acceptResp c m cache
+        -- "We also cache response reject": an empty answer section lives `minFirefoxCacheTtl`
+        | .reject => acceptResp c { m with ans := 0, ttl0 := false } cache
+
+/-- number of `ForwardDNS` calls of one `forwardWithFallback`: two when the `tcp+udp` fallback is taken -/
+def legs (sch : Scheme) (a1 : Att) : Nat :=
+  match sch, a1 with
+  | .tcpudp, .fail => 2
+  | .tcpudp, .msg m => if m.tc then 2 else 1
+  | _, _ => 1
+
+/-- number of `ForwardDNS` exchanges `dialSend` issues (what the harness counts on the fake upstreams) -/
+def exchanges (cfg : Cfg) (c : Client) : Nat → Scheme → List Round → Nat
+  | _, _, [] => 0
+  | depth, sch, r :: rest =>
+    if depth ≥ maxDepth then 0 else
+    let n := legs sch r.a1
+    match forwardWithFallback sch r.a1 r.a2 with
+    | .err _ => n
+    | .ok m =>
+      if cfg.checkQuestion && !answersRequest c.q m then n
+      else if !m.resp then n
+      else match r.route with
+        | .next sch' => n + exchanges cfg c (depth + 1) sch' rest
+        | _ => n
 
 def ownReply (c : Client) (rcode : Nat) (tc : Bool) : Reply :=
-  { id := c.id, q := some c.q, rcode := rcode, tc := tc, ans := 0, src := .own }
+  { id := c.id, q := if c.nq = 0 then none else some c.q, rcode := rcode, tc := tc, ans := 0, src := .own }
+
+/-- `dnsmessage.RcodeFormatError` -/
+def rcodeFormErr : Nat := 1
 
 /-- `writeCachedResponse`: packed bytes with the first two bytes overwritten -/
 def cachedReply (c : Client) (e : Entry) : Reply :=
@@ -255,7 +318,7 @@ inductive Act where
   /-- the concurrency limiter is full when client `i` enters -/
   | refuse (i : Nat)
   /-- the leader of flight `f` finishes its upstream exchange with the given transport outcomes -/
-  | resolve (f : Nat) (sch : Scheme) (a1 a2 : Att)
+  | resolve (f : Nat) (sch : Scheme) (rounds : List Round)
   /-- client `i` returns from `sf.Do` and writes its response -/
   | wake (i : Nat)
   /-- janitor / LRU / reject-route family removal drops a cache entry -/
@@ -265,17 +328,20 @@ inductive Act where
   | respell (k : Key) (sp : Nat)
   /-- optimistic cache: `backgroundRefresh` started for a stale entry served to client `i` finishes its
   upstream exchange (`dialSend` with `needResp = false`): only the cache can change -/
-  | refresh (i : Nat) (sch : Scheme) (a1 a2 : Att)
+  | refresh (i : Nat) (sch : Scheme) (rounds : List Round)
   deriving DecidableEq, Repr
 
 def step (cfg : Cfg) (s : St) : Act → St
   | .refuse i =>
     match s.clients[i]?, s.pcs[i]? with
-    | some c, some .init => (s.emit i (.wrote (ownReply c 5 false))).setPc i .done
+    | some c, some .init =>
+      -- the FORMERR guard stands in front of the limiter
+      (s.emit i (.wrote (ownReply c (if c.nq = 1 then 5 else rcodeFormErr) false))).setPc i .done
     | _, _ => s
   | .arrive i =>
     match s.clients[i]?, s.pcs[i]? with
     | some c, some .init =>
+      if c.nq ≠ 1 then (s.emit i (.wrote (ownReply c rcodeFormErr false))).setPc i .done else
       match c.route with
       | .reject =>
         -- RemoveDnsRespCacheFamily(baseKey) + sendRejectWithResponseWriter_
@@ -302,13 +368,13 @@ def step (cfg : Cfg) (s : St) : Act → St
           { s with flights := s.flights ++ [Flight.mk c.key i none], active := insert s.active c.key f,
                    calls := s.calls ++ [(f, c.q)], activated := s.activated + 1 }.setPc i (.leading f)
     | _, _ => s
-  | .resolve f sch a1 a2 =>
+  | .resolve f sch rounds =>
     match s.flights[f]? with
     | some fl =>
       match fl.result, s.clients[fl.leader]?, s.pcs[fl.leader]? with
       | none, some c, some (.leading f') =>
         if f' = f then
-          let (r, cache') := dialSend cfg c sch a1 a2 s.cache
+          let (r, cache') := dialSend cfg c 0 sch rounds s.cache
           { s with cache := cache', flights := s.flights.set f { fl with result := some r },
                    active := erase s.active fl.key,
                    accepted := match r with | .ok m => s.accepted ++ [(c.key, m)] | .err _ => s.accepted
@@ -333,11 +399,11 @@ def step (cfg : Cfg) (s : St) : Act → St
   | .evict k => { s with cache := erase s.cache k }
   | .respell k sp =>
     { s with cache := s.cache.map fun p => if p.1 == k then (p.1, { p.2 with q := { p.2.q with spell := sp } }) else p }
-  | .refresh i sch a1 a2 =>
+  | .refresh i sch rounds =>
     match s.clients[i]? with
     | some c =>
-      { s with cache := (dialSend cfg c sch a1 a2 s.cache).2,
-               accepted := match (dialSend cfg c sch a1 a2 s.cache).1 with
+      { s with cache := (dialSend cfg c 0 sch rounds s.cache).2,
+               accepted := match (dialSend cfg c 0 sch rounds s.cache).1 with
                  | .ok m => s.accepted ++ [(c.key, m)] | .err _ => s.accepted }
     | none => s
 
